@@ -5,6 +5,7 @@
 package chainh
 
 import (
+	"github.com/bitcoin-sv/block-headers-service/metrics"
 	"bytes"
 	"crypto/sha256"
 	"encoding/binary"
@@ -101,6 +102,13 @@ func (s *Stack) Open() error {
 	gin.DefaultWriter = io.Discard
 	gin.DefaultErrorWriter = io.Discard
 	srv := httpserver.NewHTTPServer(s.Cfg.HTTP, &s.log)
+	if os.Getenv("VERIF_METRICS") == "1" {
+		// as cmd/main.go does with metrics.enabled: the gauges are process-wide, the endpoint is registered before the routes
+		if _, on := metrics.Get(); !on {
+			metrics.EnableMetrics()
+		}
+		srv.ApplyConfiguration(metrics.Register)
+	}
 	srv.ApplyConfiguration(endpoints.SetupRoutes(s.Svc, s.Cfg.HTTP))
 	srv.ApplyConfiguration(func(e *gin.Engine) { s.Engine = e })
 	gin.DefaultWriter = io.Discard
